@@ -45,6 +45,7 @@ type gen struct {
 	newVals  int
 	stats    map[string]int
 	queries  []QuerySpec
+	claimAll []*vh.TxPlan // claims of the dedicated staker from all validators at once
 }
 
 type destroyScenario struct {
@@ -90,6 +91,33 @@ func (g *gen) block(height int) ([]*vh.TxPlan, *vh.BlockOpt) {
 		if p != nil {
 			g.stats[kind]++
 			plans = append(plans, p)
+		}
+	}
+	// a dedicated staker delegates a large amount to EVERY validator early on and later claims from all of them in one
+	// call (withdrawRewards / transfer / withdrawRewardsByMessage-free paths): the order in which the precompile walks
+	// several validators is consensus-visible (logs, events) and must not depend on map iteration order
+	staker := w.EOAs[len(w.EOAs)-1]
+	if height == 1 {
+		for _, v := range w.C.Vals {
+			data, err := cpcabi.StakingCpcInfo.ABI.Pack("delegate", common.BytesToAddress(v.Oper), new(big.Int).Mul(big.NewInt(60), big.NewInt(1e18)))
+			if err == nil {
+				to := g.staking
+				add("staking-cpc-delegate-all", w.PlanEth(staker, &to, nil, 1_500_000, data, "ok", nil))
+			}
+		}
+	} else if height > 6 && height%5 == 2 {
+		var data []byte
+		var err error
+		if height%10 == 2 {
+			data, err = cpcabi.StakingCpcInfo.ABI.Pack("withdrawRewards")
+		} else {
+			data, err = cpcabi.StakingCpcInfo.ABI.Pack("transfer", staker.Addr, big.NewInt(1e15))
+		}
+		if err == nil {
+			to := g.staking
+			p := w.PlanEth(staker, &to, nil, 3_000_000, data, "ok", nil)
+			add("staking-cpc-claim-all", p)
+			g.claimAll = append(g.claimAll, p)
 		}
 	}
 	// fire destroy scenarios prepared in the previous block
